@@ -99,8 +99,8 @@ func C14typetext(p *load.Program, run *report.Run) {
 		return true
 	})
 	names = readerNameTable(pkg, parse)
-	if len(res) == 0 && len(names) > 0 {
-		// a reader written by hand: there is no grammar to read off its source.  What remains decidable is
+	if (len(res) == 0 || sizedRe == nil || arrRe == nil) && len(names) > 0 {
+		// a reader written (partly) by hand: there is no complete grammar to read off its source.  What remains decidable is
 		// the name table: every name the writer prints for a scalar kind is a name the reader maps to that
 		// kind.  Size and array spellings are not decided here.
 		wnames := map[string]string{}
